@@ -1,5 +1,6 @@
 import AFModel.Comp
 import AFModel.Fitness
+import AFModel.Passing
 
 /-! `Float` instance of the arithmetic used by compound priors (Python `float` semantics).
 `//` and `%` follow CPython's `float_divmod`; `fmod` is computed as `x - y*trunc(x/y)`
@@ -101,5 +102,21 @@ def logPriorFloat (kind : String) (mean sigma : Float) (value : Float) : Float :
       if value ≤ 0 then -(1.0 / 0.0)
       else (Float.pow (value.log - mean) 2.0) / (2 * Float.pow sigma 2.0) - value.log
   | _ => 0.0 / 0.0
+
+end AF
+
+namespace AF
+
+def floatPass : PassOps Float where
+  add := (· + ·)
+  sub := (· - ·)
+  mul := (· * ·)
+  half := fun x => x / 2
+  abs := Float.abs
+  -- Python's max(a, b) returns a unless b > a; min(a, b) returns a unless b < a
+  max := fun a b => if b > a then b else a
+  min := fun a b => if b < a then b else a
+  negInf := -(1.0 / 0.0)
+  posInf := 1.0 / 0.0
 
 end AF
